@@ -76,12 +76,6 @@ func c07SplitInputs(r *rng, base ast.Schemas) ast.Schemas {
 	return inputs
 }
 
-func sortedByPkg(ss ast.Schemas) ast.Schemas {
-	out := append(ast.Schemas{}, ss...)
-	sort.SliceStable(out, func(i, j int) bool { return out[i].Package < out[j].Package })
-	return out
-}
-
 func c07ConsolidateOracle(inputs ast.Schemas, result ast.Schemas, err error) string {
 	// spec: union of definitions per package, or an error iff metadata or a common name conflict
 	conflict := false
@@ -270,7 +264,7 @@ func init() {
 				if err != nil {
 					reply = "conflict"
 				} else {
-					reply = "ok " + virSchemas(sortedByPkg(res))
+					reply = "ok " + virSchemas(res) // order of first appearance (fix 3f…: no longer map order)
 				}
 			}()
 			fmt.Fprintf(out, "%s\t%s\t%s\n", req, reply, verdict)
